@@ -79,7 +79,7 @@ func main() {
 				}
 			} else {
 				bad++
-				fmt.Printf("  FAIL %-60s %s %v  [%s] %s\n", o.Name, o.Result.Status, o.Result.All, o.Pos, o.Text)
+				fmt.Printf("  FAIL %-60s tags=%v %s %v  [%s] %s\n", o.Name, o.Tags, o.Result.Status, o.Result.All, o.Pos, o.Text)
 				if o.Result.Status == "sat" {
 					fmt.Printf("       model: %s\n", compactModel(o.Result.Output))
 				}
